@@ -384,7 +384,8 @@ impl Check for C13 {
                 // structured accessors (visible item / skill info) of the player
                 counter += 1;
                 let idx = if rng.chance(1, 2) { rng.below(4) } else { rng.below(n_idx) };
-                ops.push(json!({"op": "struct_set", "which": which, "idx": idx, "n": counter.wrapping_mul(2654435761), "nb": (idx + 1 + rng.below(3)) % n_idx}));
+                let probe = rng.chance(1, 4);
+                ops.push(json!({"op": "struct_set", "which": which, "idx": idx, "n": counter.wrapping_mul(2654435761), "nb": (idx + 1 + rng.below(3)) % n_idx, "probe_redirty": probe}));
                 continue;
             }
             match rng.below(16) {
@@ -544,6 +545,27 @@ impl Check for C13 {
                             let lo = u.offset + idx * stride;
                             let hi = lo + stride;
                             tainted.push((lo, hi));
+                            // which words a setter call marks for sending must not depend on the value the slot held before:
+                            // clear the dirty state, set the slot, note the dirty words of its range; clear again, set the
+                            // SAME value once more: the same words must be dirty again (they are about to be sent to a client
+                            // that may have missed the first update)
+                            if op["probe_redirty"] == true {
+                                um_dirty_reset(x);
+                                let _ = guarded(|| um_struct_set(exp, x, which, idx, seedn, nb));
+                                let w1: Vec<u16> = (lo..hi).filter(|b| um_is_bit_dirty(x, *b)).collect();
+                                um_dirty_reset(x);
+                                let _ = guarded(|| um_struct_set(exp, x, which, idx, seedn, nb));
+                                let w2: Vec<u16> = (lo..hi).filter(|b| um_is_bit_dirty(x, *b)).collect();
+                                o.count("probe_struct_redirty", 1);
+                                if w1 != w2 {
+                                    o.violate("dirty_tracking", format!("struct-redirty:{}:{}", tag, which), format!("{}: op #{} {} index {}: a first set after dirty_reset marks words {:?} dirty, setting the same value again after another dirty_reset marks {:?}", tag, n, which, idx, w1, w2));
+                                }
+                                // the reference model: everything of this history before the probe has been cleared, the slot's words are dirty
+                                m.dirty.clear();
+                                for b in &w2 {
+                                    m.dirty.insert(*b);
+                                }
+                            }
                             let need = (hi as usize + 31) / 32;
                             if need > m.blocks {
                                 m.blocks = need;
